@@ -565,7 +565,10 @@ class InboundStream:
                         pos += 1
                         continue
                 if ordered and uint16_gt(chunk.stream_seq, self.sequence_number):
-                    break
+                    # not deliverable yet, but it must not hold back later chunks
+                    # of the stream (a peer may send a bogus sequence number)
+                    pos += 1
+                    continue
                 expected_tsn = chunk.tsn
                 start_pos = pos
             elif chunk.tsn != expected_tsn:
